@@ -128,7 +128,7 @@ func (c *FnCtx) newFrame(fn *ssa.Function, args []Value, st *State) *frame {
 	fr := &frame{c: c, fn: fn, regs: map[ssa.Value]Value{}, args: args, edge: map[[2]int]*State{}}
 	fr.loops = findLoops(fn)
 	fr.order = rpo(fn)
-	if ct, ok := c.e.Contracts.ByKey[FnKey(fn)]; ok {
+	if ct, _ := c.e.ContractFor(fn); ct != nil {
 		fr.contract = ct
 		for _, li := range fr.loops {
 			li.spec = ct.Loops[li.ordinal]
@@ -620,10 +620,20 @@ func (fr *frame) instr(ins ssa.Instruction, st *State) {
 		case *types.Struct:
 			fr.set(x, c.allocStruct(st, et))
 		case *types.Array:
+			if si := c.structInfoOf(u.Elem()); si != nil && u.Len() <= 64 {
+				// an array of structs: consecutive flattened objects
+				base := c.alloc(st, si.size*int(u.Len()))
+				for k := int64(0); k < u.Len(); k++ {
+					ref := f.Add(base, f.Int(k*int64(si.size)))
+					c.storeStruct(st, si, ref, c.zeroOfSort(Sort(si.name), u.Elem()))
+					c.initGhost(st, u.Elem(), ref)
+				}
+				fr.set(x, base)
+				return
+			}
 			seq, _ := c.sortOf(et)
 			ref := c.alloc(st, 1)
 			c.setRegion(st, seq, ref, c.zeroOfSort(seq, et))
-			_ = u
 			fr.set(x, ref)
 		default:
 			s, ok := c.sortOf(et)
@@ -981,6 +991,11 @@ func (fr *frame) indexAddr(x *ssa.IndexAddr, st *State, pos string) Value {
 	switch u := x.X.Type().Underlying().(type) {
 	case *types.Slice:
 		s := fr.term(x.X, st)
+		if si := c.structInfoOf(u.Elem()); si != nil {
+			// elements of a slice of structs are flattened objects at ref + (off+i)*size
+			c.oblige(st, "bounds", f.And(f.Le(f.Int(0), i), f.Lt(i, f.SlLen(s))), pos, "index in range")
+			return f.Add(f.SlRef(s), f.Mul(f.Add(f.SlOff(s), i), f.Int(int64(si.size))))
+		}
 		seq := c.elemSeqSort(x.X.Type())
 		c.oblige(st, "bounds", f.And(f.Le(f.Int(0), i), f.Lt(i, f.SlLen(s))), pos, "index in range")
 		key := memKey(seq)
@@ -989,6 +1004,12 @@ func (fr *frame) indexAddr(x *ssa.IndexAddr, st *State, pos string) Value {
 	case *types.Pointer:
 		arr := u.Elem().Underlying().(*types.Array)
 		base := fr.operand(x.X, st)
+		if si := c.structInfoOf(arr.Elem()); si != nil {
+			if bt, ok := base.(*Term); ok {
+				c.oblige(st, "bounds", f.And(f.Le(f.Int(0), i), f.Lt(i, f.Int(arr.Len()))), pos, "index in range")
+				return f.Add(bt, f.Mul(i, f.Int(int64(si.size))))
+			}
+		}
 		seq := c.elemSeqSort(u.Elem())
 		c.oblige(st, "bounds", f.And(f.Le(f.Int(0), i), f.Lt(i, f.Int(arr.Len()))), pos, "index in range")
 		switch b := base.(type) {
@@ -1098,9 +1119,17 @@ func (fr *frame) makeSlice(x *ssa.MakeSlice, st *State, pos string) Value {
 	ln := fr.term(x.Len, st)
 	cp := fr.term(x.Cap, st)
 	et := x.Type().Underlying().(*types.Slice).Elem()
+	if si := c.structInfoOf(et); si != nil {
+		c.oblige(st, "alloc", f.And(f.Le(f.Int(0), ln), f.Le(ln, cp), f.Le(f.Mul(cp, f.Int(c.sizeof(et))), f.IntB(maxAlloc))), pos, "make: length/capacity in range (no makeslice panic)")
+		c.allocCheck(st, f.Mul(cp, f.Int(c.sizeof(et))), pos)
+		ref := f.Add(st.alpha, f.Int(1))
+		st.alpha = f.Add(st.alpha, f.Mul(cp, f.Int(int64(si.size))))
+		c.note("make of a slice of structs at %s: elements are not modelled as zero-initialised", pos)
+		return f.MkSl(ref, f.Int(0), ln, cp)
+	}
 	seq := c.elemSeqSort(x.Type())
 	es, _ := c.sortOf(et)
-	c.oblige(st, "alloc", f.And(f.Le(f.Int(0), ln), f.Le(ln, cp), f.Le(cp, f.IntB(maxLen))), pos, "make: length/capacity in range (no makeslice panic)")
+	c.oblige(st, "alloc", f.And(f.Le(f.Int(0), ln), f.Le(ln, cp), f.Le(f.Mul(cp, f.Int(c.sizeof(et))), f.IntB(maxAlloc))), pos, "make: length/capacity in range (no makeslice panic)")
 	c.allocCheck(st, f.Mul(cp, f.Int(c.sizeof(et))), pos)
 	ref := c.alloc(st, 1)
 	c.setRegion(st, seq, ref, f.SRep(seq, c.zeroOfSort(es, et), cp))
